@@ -7,6 +7,7 @@
 # Nothing is ever applied to /repo; the scratch worktree and its build output are removed at the end.
 # usage: sensitivity/run.sh [patch files...]      (default: all)
 set -u
+ORIG_PWD="$PWD"
 HERE="$(cd "$(dirname "$0")/.." && pwd)"
 SCR="${SCRATCH:-/tmp/ivpsim-sens-$$}"
 OUT="$SCR-out"
@@ -18,6 +19,7 @@ if [ $# -eq 0 ]; then
 fi
 fail=0
 for p in "$@"; do
+    p="$(cd "$ORIG_PWD" && realpath "$p")"
     [ -f "$p" ] || continue
     name="$(basename "$p" .diff)"
     [ "$name" = "patch" ] && name="seeded-$(basename "$(dirname "$p")")"
